@@ -78,6 +78,9 @@ def run(ck):
         ck.ob("C18-O1", "docs/api/formatters.md (Severity Level Mapping)", dt == got, "documentation table agrees with the code" if dt == got else "documentation %s vs code %s" % (dt, got), key="docs|level-table")
 
     g = Graph(fn)
+    if persistent_event_object(ck, fn):
+        ck.ob("C18-O3", sitestr(fn), None, "the event is assembled in a data member across the constructor and format(): the per-field provenance rules below are written for an object built in format()")
+        return
     sets = json_sets(fn)
     rs = returns(fn)
     ck.require(len(rs) == 1, "SentryFormatter::format has %d returns" % len(rs))
@@ -610,3 +613,92 @@ def level_values_by_cases(ck, F, fn, val):
     if fp0 is not None and not all(isinstance(v, str) for v in fp0.values()):
         fp0 = None
     return lev, (fp0 or None)
+
+
+def persistent_event_object(ck, fn):
+    """C18-O4: when the serialised object outlives the call (a data member reused from event to event) every key that some path of
+    format() writes must be written or removed on *every* path — otherwise the value an earlier event left there is serialised again
+    (a `logger` of the previous event in an event of category `default`).  Returns True when the event object is persistent."""
+    F = ck.facts
+    rs = returns(fn)
+    if len(rs) != 1:
+        return False
+    e = skip_copies(rs[0].get("e"))
+    docs = [x for x in walk(e) if x.get("k") == "construct" and x.get("class") == "QJsonDocument" and x.get("args")]
+    if len(docs) != 1:
+        return False
+    o = skip_copies(deref_local(fn, docs[0]["args"][0]))
+    if not (o.get("k") == "member" and skip_copies(o.get("base") or {}).get("k") == "this"):
+        return False
+    ck.rule("C18-O4", "an event object kept between calls carries nothing over: every key format() can write is written or removed on every path")
+    fld = o.get("decl") or o.get("name")
+    g = Graph(fn)
+    is_obj = lambda x: isinstance(x, dict) and skip_copies(x).get("k") == "member" and (skip_copies(x).get("decl") or skip_copies(x).get("name")) == fld
+    lams = {l.id: l for l in F.lambdas_of(fn)}
+    # direct writes / removes in format() and, for local lambdas, (call site, key) pairs
+    touch = {}    # key -> [site]
+    cond_keys = set()
+
+    def key_of(f_, kn, binds=None):
+        kn = skip_copies(deref_local(f_, kn))
+        c = const_str(kn)
+        if c is None and binds and kn.get("k") == "ref" and kn.get("decl") in binds:
+            return const_str(skip_copies(deref_local(fn, binds[kn["decl"]])))
+        return c
+
+    def ops_in(f_, binds=None):
+        out = []
+        for n in f_.all_nodes():
+            if n.get("k") != "call":
+                continue
+            if n.get("op") == "=" and len(n.get("args", [])) == 2:
+                l = skip_copies(n["args"][0])
+                if l.get("k") == "call" and l.get("op") == "[]" and is_obj(l["args"][0]):
+                    out.append((n, key_of(f_, l["args"][1], binds)))
+            elif n.get("ck") == "member" and name_is(n.get("callee"), ("QJsonObject::insert", "QJsonObject::remove", "QJsonObject::take")) and is_obj(n.get("obj")) and n.get("args"):
+                out.append((n, key_of(f_, n["args"][0], binds)))
+        return out
+    unknown_key = False
+    for n, k in ops_in(fn):
+        s_ = g.site_of(n)
+        if k is None:
+            unknown_key = True
+        elif s_ is not None:
+            touch.setdefault(k, []).append(s_)
+    for call in fn.calls():
+        if call.get("ck") == "operator" and call.get("op") == "()" and call.get("args"):
+            f0 = skip_copies(call["args"][0])
+            lam = None
+            if f0.get("k") == "ref":
+                ini = skip_copies(deref_local(fn, f0))
+                if ini.get("k") == "lambda" and ini.get("fn") in F.fns:
+                    lam = F.fns[ini["fn"]]
+            if lam is None:
+                continue
+            binds = {p["decl"]: a for p, a in zip(lam.params, call["args"][1:])}
+            gl = Graph(lam)
+            inner = ops_in(lam, binds)
+            by_key = {}
+            for n, k in inner:
+                by_key.setdefault(k, []).append(gl.site_of(n))
+            for k, sites in by_key.items():
+                if k is None:
+                    unknown_key = True
+                    continue
+                # the lambda touches the key on every one of its paths?
+                if gl.must_pass({s for s in sites if s is not None}):
+                    s_ = g.site_of(call)
+                    if s_ is not None:
+                        touch.setdefault(k, []).append(s_)
+                else:
+                    cond_keys.add(k)
+    bad = []
+    for k, sites in sorted(touch.items()):
+        if not g.must_pass(set(sites)):
+            bad.append(k)
+    bad += sorted(cond_keys - set(touch))
+    ck.ob("C18-O4", sitestr(fn, rs[0]), False if bad else None if unknown_key else True,
+          "the event object %s is kept between calls, and key%s %s %s neither written nor removed on some path of format(): an event taking that path is serialised with the value an earlier event left there" %
+          (describe(o), "s" if len(bad) > 1 else "", ", ".join(repr(b) for b in bad), "are" if len(bad) > 1 else "is") if bad else
+          "the event object %s is kept between calls; every key format() writes (%d) is written or removed on every path" % (describe(o), len(touch)), key="format|stale-key")
+    return True
